@@ -16,6 +16,7 @@ R-C14-5: every division denominator of the first solve (logged from the symbolic
          matrices (each verified SPD by its leading minors): a sign change means a zero on the SPD cone, i.e. a breakdown.
 """
 from gmg import ir, report, structq
+from gmg.interp import ThrowEx
 from gmg.structq import exprs_of_stmt, is_this_field, stmts_with_guards, writes_in_expr
 
 CLS = "SymmetricTridiagonalSolver<double>"
@@ -135,6 +136,32 @@ def spd_sign_changes(n, cyclic, A, a, b, c, denoms):
     return flips
 
 
+def make_tri_domain(prog, force=None):
+    """OpsDomain + forked value-dependent comparisons (tolerance tests inside the solver)"""
+    from gmg import forkdom, opsdom
+
+    class TriDomain(opsdom.OpsDomain, forkdom.ValueTests):
+        def abs_binop(self, op, a, b, e, fr):
+            r = self.value_test(op, a, b, e)
+            if r is not None:
+                return r
+            return opsdom.OpsDomain.abs_binop(self, op, a, b, e, fr)
+
+        def call(self, e, fr):
+            r = self.value_call(e, fr)
+            if r is not NotImplemented:
+                return r
+            return opsdom.OpsDomain.call(self, e, fr)
+
+        def global_var(self, e, fr):
+            if e.get("qn") in ("std::cerr", "std::cout", "std::clog"):
+                return "console"
+            return opsdom.OpsDomain.global_var(self, e, fr)
+    d = TriDomain(prog, record=False)
+    d.init_value_tests(force)
+    return d
+
+
 def algebraic_solves(ck, prog, tier):
     """interpret solveInPlace from source on a symbolic SPD-shaped matrix (entries are independent atoms) in the exact
     rational-function domain: the returned x must satisfy A x = b identically, and a second solve with the same object must
@@ -152,21 +179,11 @@ def algebraic_solves(ck, prog, tier):
         for n in ns:
             key = "n=%d cyclic=%s" % (n, cyclic)
             ck.instance("R-C14-4", key)
-            dom = opsdom.OpsDomain(prog, record=False)
-            it = Interp(prog, dom)
-            o = dom.new_object(CLS, None, None)
-            it.call_function(ctor, o, [n])
-            o.f["is_cyclic_"].set(cyclic)
-            md, sd = o.f["main_diagonal_values_"].get(), o.f["sub_diagonal_values_"].get()
+            from gmg.conc import PtrInto
+            from gmg import forkdom
             a = [dag.atom("a_%d" % i) for i in range(n)]
             b = [dag.atom("b_%d" % i) for i in range(n - 1)]
             c = dag.atom("c")
-            for i in range(n):
-                md.sym[i] = a[i]
-            for i in range(n - 1):
-                sd.sym[i] = b[i]
-            if cyclic:
-                o.f["cyclic_corner_element_"].set(c)
             # the matrix as the class documents it: symmetric tridiagonal + corner (0,n-1),(n-1,0) when cyclic
             A = {}
             for i in range(n):
@@ -177,44 +194,67 @@ def algebraic_solves(ck, prog, tier):
             if cyclic:
                 A[(0, n - 1)] = dag.add(A.get((0, n - 1), dag.ZERO), c)
                 A[(n - 1, 0)] = dag.add(A.get((n - 1, 0), dag.ZERO), c)
-            results = []
-            bad = None
-            denoms = []
-            orig_div = dag.div
 
-            def logging_div(a_, b_, _d=denoms, _o=orig_div):
-                _d.append(dag.lift(b_))
-                return _o(a_, b_)
-            for rep in range(2):
-                x = SArr("x", n, gen=lambda j: dag.atom("rhs_%d" % j))
-                # work buffers arrive with arbitrary contents (callers reuse them across lines and solvers): a read of an
-                # element the solve has not written itself makes the result depend on these atoms, and A x == b fails
-                t1 = SArr("t1", n, gen=lambda j, rep=rep: dag.atom("stale_work1_%d_%d" % (rep, j)))
-                t2 = SArr("t2", n, gen=lambda j, rep=rep: dag.atom("stale_work2_%d_%d" % (rep, j)))
-                from gmg.conc import PtrInto
-                try:
-                    if rep == 0:
-                        dag.div = logging_div
-                    it.call_function(solve, o, [PtrInto(x, 0), PtrInto(t1, 0), PtrInto(t2, 0)])
-                except ir.AnalysisBroken as e:
-                    bad = "interpretation failed: %s" % e
-                    break
-                finally:
-                    dag.div = orig_div
-                sol = [dag.lift(x.sym.get(i, dag.atom("rhs_%d" % i))) for i in range(n)]
-                results.append(sol)
-                if dom.oob:
-                    bad = "solve #%d: out-of-range access %s[%s] (length %s) at %s" % ((rep + 1,) + tuple(dom.oob[0]))
-                    break
+            def run_solves(force):
+                """two successive solves with one solver object; returns (problem or None, aborted, value tests met, denominators)"""
+                dom = make_tri_domain(prog, force)
+                it = Interp(prog, dom)
+                o = dom.new_object(CLS, None, None)
+                it.call_function(ctor, o, [n])
+                o.f["is_cyclic_"].set(cyclic)
+                md, sd = o.f["main_diagonal_values_"].get(), o.f["sub_diagonal_values_"].get()
                 for i in range(n):
-                    lhs = dag.total(dag.mul(A[(i, j)], sol[j]) for j in range(n) if (i, j) in A)
-                    if not dag.equal(lhs, dag.atom("rhs_%d" % i)):
-                        bad = "solve #%d: row %d of A x - b does not vanish (A = tridiag(a,b)%s)" % (rep + 1, i, " + corner c" if cyclic else "")
+                    md.sym[i] = a[i]
+                for i in range(n - 1):
+                    sd.sym[i] = b[i]
+                if cyclic:
+                    o.f["cyclic_corner_element_"].set(c)
+                results = []
+                bad = None
+                denoms = []
+                orig_div = dag.div
+
+                def logging_div(a_, b_, _d=denoms, _o=orig_div):
+                    _d.append(dag.lift(b_))
+                    return _o(a_, b_)
+                for rep in range(2):
+                    x = SArr("x", n, gen=lambda j: dag.atom("rhs_%d" % j))
+                    # work buffers arrive with arbitrary contents (callers reuse them across lines and solvers): a read of an
+                    # element the solve has not written itself makes the result depend on these atoms, and A x == b fails
+                    t1 = SArr("t1", n, gen=lambda j, rep=rep: dag.atom("stale_work1_%d_%d" % (rep, j)))
+                    t2 = SArr("t2", n, gen=lambda j, rep=rep: dag.atom("stale_work2_%d_%d" % (rep, j)))
+                    try:
+                        if rep == 0:
+                            dag.div = logging_div
+                        it.call_function(solve, o, [PtrInto(x, 0), PtrInto(t1, 0), PtrInto(t2, 0)])
+                    except ir.AnalysisBroken as e:
+                        return "interpretation failed: %s" % e, False, dom, denoms
+                    except (forkdom.Aborts, ThrowEx) as e:
+                        return "the solver rejects the matrix: %s" % (getattr(e, "what", e),), True, dom, denoms
+                    finally:
+                        dag.div = orig_div
+                    sol = [dag.lift(x.sym.get(i, dag.atom("rhs_%d" % i))) for i in range(n)]
+                    results.append(sol)
+                    if dom.oob:
+                        return "solve #%d: out-of-range access %s[%s] (length %s) at %s" % ((rep + 1,) + tuple(dom.oob[0])), False, dom, denoms
+                    for i in range(n):
+                        lhs = dag.total(dag.mul(A[(i, j)], sol[j]) for j in range(n) if (i, j) in A)
+                        if not dag.equal(lhs, dag.atom("rhs_%d" % i)):
+                            return "solve #%d: row %d of A x - b does not vanish (A = tridiag(a,b)%s)" % (rep + 1, i, " + corner c" if cyclic else ""), False, dom, denoms
+                if any(not dag.equal(p_, q_) for p_, q_ in zip(results[0], results[1])):
+                    return "the second solve with the same object returns a different solution", False, dom, denoms
+                return None, False, dom, denoms
+            bad, aborted, dom0, denoms = run_solves(None)
+            if aborted:
+                bad = "with generic (non-vanishing) symbols " + bad
+            if not bad:
+                # value-dependent tests inside the solver (a tolerance on an entry): flipped one at a time; a flipped run may
+                # reject the matrix, but if it carries on the solution must still be exact
+                for kf in range(dom0.n_value_tests):
+                    bad2, aborted2, d2, _ = run_solves(kf)
+                    if bad2 and not aborted2:
+                        bad = "when the value test at %s takes its other outcome the solve carries on and: %s" % (d2.flipped_site, bad2)
                         break
-                if bad:
-                    break
-            if not bad and any(not dag.equal(p_, q_) for p_, q_ in zip(results[0], results[1])):
-                bad = "the second solve with the same object returns a different solution"
             if not bad:
                 # ---- R-C14-5: no denominator of the first solve (factorisation + substitution) changes sign over SPD inputs
                 ck.instance("R-C14-5", key)
